@@ -176,4 +176,37 @@ theorem and4 {a b c d : Bool} (h : (a && b && c && d) = true) :
   simp only [Bool.and_eq_true] at h
   exact ⟨h.1.1.1, h.1.1.2, h.1.2, h.2⟩
 
+/-! ### corollaries of the four checks: the two statements that C18 names explicitly -/
+
+theorem clean_of_checks {a : List (List Kind)} {o : Outcome} (h1 : failBalanced o = true)
+    (h2 : successExact a o = true) : o.clean = true := by
+  unfold failBalanced at h1
+  unfold successExact at h2
+  cases hi : o.st.injected <;> simp_all
+
+/-- a run that ends without fault has released nothing twice and nothing that was never assigned -/
+theorem noBad_of_clean {o : Outcome} (h : o.clean = true) : noBadRelease o = true := by
+  unfold Outcome.clean at h
+  unfold noBadRelease
+  cases hf : o.st.fault <;> simp_all
+
+theorem noBad_of_checks {a : List (List Kind)} {o : Outcome} (h1 : failBalanced o = true)
+    (h2 : successExact a o = true) : noBadRelease o = true :=
+  noBad_of_clean (clean_of_checks h1 h2)
+
+theorem noBad_of_checks_upTo {c : List Kind} {a : List (List Kind)} {o : Outcome} (h1 : failBalancedUpTo c o = true)
+    (h2 : successExact a o = true) : noBadRelease o = true := by
+  apply noBad_of_clean
+  unfold failBalancedUpTo at h1
+  unfold successExact at h2
+  cases hi : o.st.injected <;> simp_all
+
+/-- `preUntouched` contains "on error the visible state is as on entry" -/
+theorem rolledBack_of_preUntouched {p : Prog} {o : Outcome} (h : preUntouched p o = true) :
+    stateRolledBack p o = true := by
+  unfold preUntouched at h
+  unfold stateRolledBack
+  simp only [Bool.and_eq_true] at h
+  exact h.2
+
 end ArgoVerif.Model.Ledger
